@@ -1,0 +1,26 @@
+//go:build verif
+
+package walker
+
+import bbloom "github.com/ipfs/bbloom"
+
+// VerifNewBloomTracker builds a BloomTracker exactly as NewBloomTracker does
+// but without the MinBloomCapacity floor, so that the verification harness can
+// drive the chain through many growth steps with few inserts.
+func VerifNewBloomTracker(capacity uint64, bitsPerElem, hashLocs uint) (*BloomTracker, error) {
+	b, err := newBloom(capacity, bitsPerElem, hashLocs)
+	if err != nil {
+		return nil, err
+	}
+	return &BloomTracker{
+		chain:       []*bbloom.Bloom{b},
+		lastCap:     capacity,
+		bitsPerElem: bitsPerElem,
+		hashLocs:    hashLocs,
+	}, nil
+}
+
+// VerifCounters exposes the chain length and the counters of a BloomTracker.
+func (bt *BloomTracker) VerifCounters() (chainLen int, lastCap, curInserts, totalInserts, deduplicated uint64) {
+	return len(bt.chain), bt.lastCap, bt.curInserts, bt.totalInserts, bt.deduplicated
+}
